@@ -224,6 +224,55 @@ where
     }
     monitors(h, "blind_proofs", &tb, &bw, &bencs);
 
+    // (g) other shapes: U in 0..=3, M in 0..=2 (a reuse that only happens for one count)
+    for l in [0usize, 1, 2, 3, 11, 12, 16, 17, 28, 33, 64] {
+        let msgs = rand_msgs(h, l);
+        let s = match sign::<CS>(h, &sk, &pk, None, Some(&msgs)).ok() { Some(s) => s, None => continue };
+        let msc = BBSplusMessage::messages_to_scalar::<CS>(&msgs, CS::API_ID).unwrap();
+        let hid: Vec<Scalar> = msc.iter().map(|m| m.value).collect();
+        let mut tsh = Vec::new();
+        for _ in 0..3 {
+            let (p, draws) = proofgen::<CS>(h, &pk, &s.to_bytes(), None, None, Some(&msgs), Some(&[]), vec![]);
+            let id = h.last();
+            if let Some(p) = p.ok() {
+                let t = proof_transcript(&p.to_bytes(), &s.e(), &hid, &draws);
+                let ok_roles = draws.len() == 5 + l
+                    && t.blindings[0].to_be_bytes()[..] == draws[2].value[..]
+                    && (0..l).all(|j| t.blindings[1 + j].to_be_bytes()[..] == draws[5 + j].value[..]);
+                h.expect(ok_roles, "C07.roles_shapes", &format!("U = {}: recomputed blindings are not the drawn scalars", l), &[id]);
+                tsh.push(t);
+            }
+        }
+        monitors(h, &format!("proof_U{}", l), &tsh, &[], &[]);
+    }
+    for m in [0usize, 1, 2, 13, 14, 15, 16, 31, 63] {
+        let cm = rand_msgs(h, m);
+        let cmsc = BBSplusMessage::messages_to_scalar::<CS>(&cm, CS::API_ID_BLIND).unwrap();
+        let mut tsh = Vec::new();
+        for _ in 0..3 {
+            let (c, draws) = commit::<CS>(h, Some(&cm), vec![]);
+            let id = h.last();
+            if let Some((c, bf)) = c.ok() {
+                let cb = c.to_bytes();
+                let k = (cb.len() - 48) / 32;
+                let ss: Vec<Scalar> = (0..k).map(|i| sc(&cb[48 + 32 * i..80 + 32 * i])).collect();
+                let ch = ss[k - 1];
+                let blind = sc(&bf.to_bytes());
+                let mut bl = vec![ss[0] - blind * ch];
+                for j in 0..m {
+                    bl.push(ss[1 + j] - cmsc[j].value * ch);
+                }
+                let roles = draws.len() == m + 2
+                    && draws[0].value[..] == bf.to_bytes()[..]
+                    && bl[0].to_be_bytes()[..] == draws[1].value[..]
+                    && (0..m).all(|j| bl[1 + j].to_be_bytes()[..] == draws[2 + j].value[..]);
+                h.expect(roles, "C07.commit_roles_shapes", &format!("M = {}: commit blindings are not the drawn scalars", m), &[id]);
+                tsh.push(Transcript { points: vec![cb[..48].to_vec()], blindings: bl, tape: draws.iter().map(|d| d.value.clone()).collect() });
+            }
+        }
+        monitors(h, &format!("commit_M{}", m), &tsh, &[], &[]);
+    }
+
     // (f) random key pairs
     let mut sks: HashSet<Vec<u8>> = HashSet::new();
     for _ in 0..n {
